@@ -441,6 +441,11 @@ func (b *Builder) findRegistryPackageSource(ctx context.Context, sourceAddr sour
 
 		var versionDeprecation *ModulePackageVersionDeprecation
 		for _, v := range availablePackageInfos {
+			if selectedVersion.Metadata != v.Version.Metadata {
+				// Same ignores build metadata, but the registry may list
+				// versions that differ only there, each with its own note.
+				continue
+			}
 			if selectedVersion.Same(v.Version) {
 				versionDeprecation = v.Deprecation
 				break
